@@ -7,6 +7,7 @@
 //   -DCFG_BACK=0|1     SmallSet backing set: 0 = std::set, 1 = amc::FlatSet
 //   -DCFG_UVEC=0..3    FlatSet underlying vector: 0 = amc::vector, 1 = SmallVector<T,CFG_N>, 2 = FixedCapacityVector<T,CFG_UCAP> (default 64),
 //                      3 = std::vector
+//   -DCFG_CMP=0..6     6 = less with a self-referential (not trivially relocatable) comparator object;
 //   -DCFG_CMP=0..5     5 = transparent less with the heterogeneous key Band{d} (equivalent to every v with v / 4 == d);
 //   -DCFG_CMP=0..4     4 = StatefulLess in a different state (m = 7 + 3c) in every set c of the pool; 0 = std::less, 1 = std::greater, 2 = ModLess (coarse: compares v % 5, stateless),
 //                      3 = StatefulLess (compares v % m, m given at construction; default constructed m = 1000003)
@@ -100,6 +101,18 @@ struct TranspLess {
     return k.d < val(b) / 4;
   }
 };
+// a comparator that is NOT trivially relocatable: it stores its own address (a byte-wise copy is detected at its next use)
+struct SelfRefLess {
+  const SelfRefLess *self;
+  SelfRefLess() : self(this) {}
+  SelfRefLess(const SelfRefLess &) : self(this) {}
+  SelfRefLess &operator=(const SelfRefLess &) { return *this; }
+  bool operator()(const Elem &a, const Elem &b) const {
+    if (self != this) G().fault("bitwiseComparator");
+    ++gCmp;
+    return val(a) < val(b);
+  }
+};
 struct StatefulLess {
   int m;
   StatefulLess() : m(1000003) {}
@@ -122,6 +135,9 @@ static Cmp makeCmp(int = 0) { return Cmp(); }
 #elif CFG_CMP == 3
 using Cmp = StatefulLess;
 static Cmp makeCmp(int = 0) { return Cmp(7); }
+#elif CFG_CMP == 6
+using Cmp = SelfRefLess;
+static Cmp makeCmp(int = 0) { return Cmp(); }
 #elif CFG_CMP == 5
 // "transp": a transparent comparator; the heterogeneous key `Band{d}` is equivalent to every element v with v / 4 == d
 // (a run of up to four consecutive elements: count may exceed 1, lower_bound / upper_bound delimit the run)
